@@ -93,6 +93,7 @@ class EngineCheck:
         self.violations = []
         self.unattributed = 0
         self.notes = []
+        self.extra_violations = 0
 
     # -- running -------------------------------------------------------------------------------
     def run_and_validate(self, behs, geom="tiny", batch_atomic=False, chunk=None, drop=("reclaim",)):
@@ -146,9 +147,35 @@ class EngineCheck:
         coverage["unattributed_failures"] = self.unattributed
         if self.notes:
             coverage["notes"] = self.notes
+        nviol = len(self.violations) + self.extra_violations
         C.write_evidence(self.pid, self.tier, level, coverage, time.time() - self.t0, assumptions=assumptions,
-                         violations=len(self.violations))
-        return C.EXIT_VIOLATION if self.violations else C.EXIT_OK
+                         violations=nviol)
+        return C.EXIT_VIOLATION if nviol else C.EXIT_OK
+
+    def merge_blocks(self, view_name, coverage):
+        """Adds the WalrusBlocks design-model pipeline (TLC refinement check of the block-level design
+        + replay of TLC-generated behaviours on the real engine) to this check."""
+        from . import props_blocks as PB
+        rc, cov, lines = getattr(PB, view_name)(self.tier)
+        for l in lines:
+            print(l)
+        self.extra_violations += sum(1 for l in lines if l.startswith("VIOLATION"))
+        coverage["contract_states"] = coverage.get("states", 0)
+        coverage["states"] = coverage.get("states", 0) + cov.get("states", 0)
+        coverage["transitions"] = coverage.get("transitions", 0) + cov.get("transitions", 0)
+        coverage["random_traces"] = coverage.get("traces_validated_against_impl", 0)
+        coverage["traces_validated_against_impl"] = coverage.get("traces_validated_against_impl", 0) + cov.get("traces_validated_against_impl", 0)
+        coverage["evaluations"] = coverage.get("evaluations", 0) + cov.get("traces_validated_against_impl", 0)
+        coverage["distinct_nontrivial"] = coverage.get("distinct_nontrivial", 0) + cov.get("design_behaviours_replayed", 0)
+        for k, v in cov.items():
+            if k not in ("states", "transitions", "traces_validated_against_impl"):
+                coverage[k] = v
+        coverage["rule"] = coverage.get("rule", "") + (" PLUS the design model WalrusBlocks (tiny geometry, transcription of writer/reader/"
+                                                      "planner/parser/recovery) checked by TLC to refine WalrusAPI; one shortest behaviour per distinct (code path, "
+                                                      "design state) is generated by TLC, a stratified selection is replayed on the real engine under fd and mmap with "
+                                                      "drain and reopen+drain tails, validated against the contract, and the engine's projected state is compared with "
+                                                      "the model's event by event (MODEL-DRIFT, never a violation).")
+        return coverage
 
 
 COMMON_ASSUMPTIONS = [
@@ -159,7 +186,8 @@ COMMON_ASSUMPTIONS = [
 
 
 def generic(pid, tier, *, profiles, own, twin_flag=None, n_quick=400, n_thorough=4000, cfgs=None,
-            real_n=0, level="model_checking", extra_assumptions=None, rule=None, chunk=None, gen_kwargs=None):
+            real_n=0, level="model_checking", extra_assumptions=None, rule=None, chunk=None, gen_kwargs=None,
+            blocks_view=None):
     """profiles: list of generator profile names; own(div) -> bool says whether a rejected
     execution is this property's business; twin_flag: ops carrying this flag are removed to
     build the twin execution (the property is blamed only if the twin is accepted)."""
@@ -226,6 +254,8 @@ def generic(pid, tier, *, profiles, own, twin_flag=None, n_quick=400, n_thorough
         "twin_rule": twin_flag,
     }
     coverage.update(real_cov)
+    if blocks_view:
+        coverage = ck.merge_blocks(blocks_view, coverage)
     return ck.finish(level, coverage, COMMON_ASSUMPTIONS + (extra_assumptions or []))
 
 
@@ -239,20 +269,20 @@ READ_KINDS = ("spurious_empty", "redelivered", "extra", "skipped", "skipped_insi
 def c01(tier):
     def own(d):
         return d["ev"] in ("read", "bread", "hang", "died") and d["kind"] in READ_KINDS and d.get("off", -1) < 0
-    return generic("C01", tier, profiles=["seq"], own=own, n_quick=600, n_thorough=6000, real_n=12)
+    return generic("C01", tier, profiles=["seq"], own=own, n_quick=600, n_thorough=6000, real_n=12, blocks_view="c01_blocks")
 
 
 def c03(tier):
     def own(d):
         return d["ev"] == "bread" and d["kind"] in ("over_cap", "over_budget", "spurious_empty", "read_panic", "hang")
-    return generic("C03", tier, profiles=["seq", "peek", "cap"], own=own, n_quick=750, n_thorough=6000, real_n=8)
+    return generic("C03", tier, profiles=["seq", "peek", "cap"], own=own, n_quick=750, n_thorough=6000, real_n=8, blocks_view="c03_blocks")
 
 
 def c15(tier):
     def own(d):
         return d["ev"] == "counts"
     return generic("C15", tier, profiles=["seq", "peek", "restart"], own=own, n_quick=750, n_thorough=6000,
-                   cfgs=[c for c in G.CFGS_ALL if c["mode"] == "strict"] + [G.CFGS_ALL[2]])
+                   cfgs=[c for c in G.CFGS_ALL if c["mode"] == "strict"] + [G.CFGS_ALL[2]], blocks_view="c15_blocks")
 
 
 def c02(tier):
